@@ -48,6 +48,14 @@ Definition default_mk : option nat := find_kind "MarkModules" default_passes 0.
 
 Fixpoint nat_mem (x : nat) (l : list nat) : bool :=
   match l with [] => false | y :: l' => (x =? y) || nat_mem x l' end.
+(* an entry is EFFECTIVE when no earlier entry of the list is of the same class (shares its class-level cache):
+   a repeated class finds every module in the cache its first occurrence filled, and never runs a body *)
+Definition eff (caches : list nat) (k : nat) : bool := negb (nat_mem (nth k caches 0) (firstn k caches)).
+Fixpoint next_eff_aux (caches : list nat) (n j : nat) : nat :=
+  match n with 0 => j | S n' => if eff caches j then j else next_eff_aux caches n' (S j) end.
+(* the first effective entry at or after j; the length of the list when there is none *)
+Definition next_eff (caches : list nat) (j : nat) : nat := next_eff_aux caches (List.length caches - j) j.
+
 Fixpoint caches_distinct (l : list nat) : bool :=
   match l with [] => true | x :: l' => negb (nat_mem x l') && caches_distinct l' end.
 
@@ -82,7 +90,7 @@ Section Machine.
     s_content : mid -> C;
     s_snap : mid -> option IO;              (* module._pre_flattening_io *)
     s_marked : mid -> bool;                 (* module._elaborated is not None *)
-    s_stage : mid -> nat;                   (* ghost: number of pass bodies that have run on the module *)
+    s_stage : mid -> nat;                   (* ghost: the next entry that would still run a body on the module *)
     s_log : list (nat * mid * list view);   (* ghost: newest first: entry, module, the views its body read *)
     s_err : bool                            (* recursion fuel exhausted (shown unreachable) *)
   }.
@@ -109,7 +117,7 @@ Section Machine.
           (upd (s_content st) m (body k m vs c))
           (if k =? bf then upd (s_snap st) m (Some (bio c)) else s_snap st)
           (if k =? mk then upd (s_marked st) m true else s_marked st)
-          (upd (s_stage st) m (S (s_stage st m)))
+          (upd (s_stage st) m (next_eff caches (S k)))
           ((k, m, vs) :: s_log st)
           (s_err st).
 
